@@ -178,14 +178,44 @@ type c19Case struct {
 	probSalt   int // 0: constant 1; >0: a fixed table; <0: distinct per pair
 	metaLen    int // length of the payment metadata for the final hop
 
+	// bl makes the payment go to a blinded path: the request's target is the
+	// NUMS key (node index n+k), the blinded hops are nodes n .. n+k-1.
+	bl *c19Blinded
+
 	// droppedInb lists policy re-announcements (graph-DB stream) that no
 	// longer carry an inbound-fee record: channel, node index, and the
 	// inbound fee (base, rate) the node had announced before.
 	droppedInb [][4]int64
 }
 
+// c19Blinded is a blinded payment path (BlindedPayment): introduction node in
+// the graph, k blinded hops behind it, and the aggregate relay parameters.
+type c19Blinded struct {
+	intro, k   int
+	base, rate uint32
+	delta      uint16
+	min, max   uint64
+}
+
+// c19BlindedChanBase is the channel id the trace uses for the edge out of the
+// introduction node (blinded edges carry channel id 0 in the code); the edge out
+// of blinded hop i is base+i.
+const c19BlindedChanBase = 9000
+
+func (cs *c19Case) blChan(from int) uint64 {
+	if from == cs.bl.intro {
+		return c19BlindedChanBase
+	}
+
+	return uint64(c19BlindedChanBase + from - cs.n + 1)
+}
+
 func (cs *c19Case) clone() *c19Case {
 	c := *cs
+	if cs.bl != nil {
+		b := *cs.bl
+		c.bl = &b
+	}
 	c.chans = make([]c19Chan, len(cs.chans))
 	for i, ch := range cs.chans {
 		c.chans[i] = ch
@@ -736,6 +766,102 @@ func (c *c19) genTieCase() *c19Case {
 	return cs
 }
 
+// genBlindedCase builds a payment to a blinded path: a random graph, the
+// introduction node is a graph node (the former target where possible), k = 1..3
+// blinded hops behind it, aggregate min/max HTLC around the amount.
+func (c *c19) genBlindedCase() *c19Case {
+	r := c.rng
+	cs := c.genCase()
+	var keep []c19Chan
+	for _, ch := range cs.chans {
+		if !ch.hint {
+			keep = append(keep, ch)
+		}
+	}
+	if len(keep) == 0 {
+		keep = append(keep, c19Chan{id: 1, a: 0, b: 1, capSat: 1 << 33,
+			p1: c.genPol(cs.amt), p2: c.genPol(cs.amt)})
+	}
+	cs.chans = keep
+	cs.order = r.Perm(len(cs.chans))
+	cs.self = cs.src
+	cs.metaLen = 0
+	cs.lastHop = -1
+	intro := cs.tgt
+	if intro >= cs.n || intro == cs.src {
+		intro = (cs.src + 1 + r.Intn(cs.n-1)) % cs.n
+	}
+	amt := cs.amt
+	bl := &c19Blinded{
+		intro: intro, k: 1 + r.Intn(3),
+		base:  uint32(c.pick(0, 0, 1, 1000, 5000, uint64(r.Intn(3000)))),
+		rate:  uint32(c.pick(0, 0, 1, 100, 2500, 40000, 1000000)),
+		delta: uint16(c.pick(0, 18, 40, 80, 144, 300, uint64(r.Intn(500)))),
+		min:   c.pick(0, 0, 1, c19Sub(amt, 1), amt, amt+1),
+		max: c.pick(0, c19Sub(amt, 1), c19Sub(amt, 1), amt, amt, amt+1,
+			2*amt+1, 1<<40),
+	}
+	if bl.max < bl.min {
+		if c.chance(0.5) {
+			bl.min = 0
+		} else {
+			bl.max = bl.min
+		}
+	}
+	cs.bl = bl
+	cs.tgt = cs.n + bl.k
+	cs.finalDelta = 0
+	cs.via = "find"
+	if c.chance(0.5) {
+		cs.via = "route"
+	}
+
+	return cs
+}
+
+// deriveBlinded moves one constraint of a blinded payment to the boundary of the
+// route just found.
+func (c *c19) deriveBlinded(cs *c19Case, rt *route.Route) *c19Case {
+	d := cs.clone()
+	fee := uint64(rt.TotalAmount) - cs.amt
+	sum := rt.TotalTimeLock - cs.height - uint32(cs.finalDelta)
+	switch c.rng.Intn(8) {
+	case 0:
+		d.bl.max = c19Sub(cs.amt, 1)
+		if d.bl.max < d.bl.min {
+			d.bl.min = d.bl.max
+		}
+	case 1:
+		d.bl.max = cs.amt
+		if d.bl.max < d.bl.min {
+			d.bl.min = d.bl.max
+		}
+	case 2:
+		d.bl.min = cs.amt + 1
+		if d.bl.max < d.bl.min {
+			d.bl.max = d.bl.min
+		}
+	case 3:
+		d.bl.min = cs.amt
+		if d.bl.max < d.bl.min {
+			d.bl.max = d.bl.min
+		}
+	case 4:
+		d.feeLimit = fee
+	case 5:
+		d.feeLimit = c19Sub(fee, 1)
+	case 6:
+		d.cltvLimit = sum
+	case 7:
+		if sum > 0 {
+			d.cltvLimit = sum - 1
+		}
+	}
+	d.order = c.rng.Perm(len(d.chans))
+
+	return d
+}
+
 // c19PolVer prints gossip version and raw disable bits of a policy.
 func c19PolVer(p *c19Pol) string {
 	if p == nil {
@@ -1019,6 +1145,74 @@ func (c *c19) run(cs *c19Case, g Graph, sess GraphSessionFactory,
 		lastHop = &v
 	}
 
+	// Blinded payment tail: built as the caller of the router supplies it
+	// (BlindedPayment -> NewBlindedPaymentPathSet -> ToRouteHints, target =
+	// TargetPubKey()). The trace prints the aggregate parameters as given
+	// (ground truth) and the HasMaxHTLC flag the code put on the edge out of
+	// the introduction node.
+	var blSet *BlindedPaymentPathSet
+	if cs.bl != nil {
+		intro, err := btcec.ParsePubKey(keys[cs.bl.intro][:])
+		if err != nil {
+			panic(err)
+		}
+		_, blinding := btcec.PrivKeyFromBytes([]byte{99})
+		bpath := &sphinx.BlindedPath{
+			IntroductionPoint: intro,
+			BlindingPoint:     blinding,
+			BlindedHops: []*sphinx.BlindedHopInfo{
+				{CipherText: bytes.Repeat([]byte{1}, 12)},
+			},
+		}
+		var nodes []string
+		for i := 0; i < cs.bl.k; i++ {
+			pub, err := btcec.ParsePubKey(keys[cs.n+i][:])
+			if err != nil {
+				panic(err)
+			}
+			bpath.BlindedHops = append(bpath.BlindedHops,
+				&sphinx.BlindedHopInfo{
+					BlindedNodePub: pub,
+					CipherText:     bytes.Repeat([]byte{2}, 12+i),
+				})
+			nodes = append(nodes, strconv.Itoa(cs.n+i))
+		}
+		nodes = append(nodes, strconv.Itoa(cs.n+cs.bl.k))
+		bp := &BlindedPayment{
+			BlindedPath:         bpath,
+			BaseFee:             cs.bl.base,
+			ProportionalFeeRate: cs.bl.rate,
+			CltvExpiryDelta:     cs.bl.delta,
+			HtlcMinimum:         cs.bl.min,
+			HtlcMaximum:         cs.bl.max,
+		}
+		if err := bp.Validate(); err != nil {
+			panic(err)
+		}
+		blSet, err = NewBlindedPaymentPathSet([]*BlindedPayment{bp})
+		if err != nil {
+			panic(err)
+		}
+		bh, err := blSet.ToRouteHints()
+		if err != nil {
+			panic(err)
+		}
+		if route.NewVertex(blSet.TargetPubKey()) != keys[cs.tgt] {
+			panic("c19: blinded target is not the NUMS key")
+		}
+		addEdges = map[route.Vertex][]AdditionalEdge(bh)
+		hasMaxCode := 0
+		if es := bh[keys[cs.bl.intro]]; len(es) == 1 &&
+			es[0].EdgePolicy().HasMaxHTLC {
+
+			hasMaxCode = 1
+		}
+		c.pf("blinded intro=%d nodes=%s chan=%d min=%d max=%d base=%d "+
+			"rate=%d delta=%d hasmax_code=%d", cs.bl.intro,
+			strings.Join(nodes, ","), c19BlindedChanBase, cs.bl.min,
+			cs.bl.max, cs.bl.base, cs.bl.rate, cs.bl.delta, hasMaxCode)
+	}
+
 	res := &c19Result{}
 	var (
 		ferr   error
@@ -1040,6 +1234,8 @@ func (c *c19) run(cs *c19Case, g Graph, sess GraphSessionFactory,
 				LastHop:            lastHop,
 				CltvLimit:          cs.cltvLimit,
 				Metadata:           metadata,
+
+				BlindedPaymentPathSet: blSet,
 			}
 			res.path, res.prob, ferr = findPath(
 				&graphParams{graph: g, bandwidthHints: hints,
@@ -1057,7 +1253,7 @@ func (c *c19) run(cs *c19Case, g Graph, sess GraphSessionFactory,
 					totalAmt:  lnwire.MilliSatoshi(cs.amt),
 					cltvDelta: cs.finalDelta,
 					metadata:  metadata,
-				}, nil,
+				}, blSet,
 			)
 
 		case "route":
@@ -1088,15 +1284,27 @@ func (c *c19) run(cs *c19Case, g Graph, sess GraphSessionFactory,
 				LastHop:            lastHop,
 				CltvLimit:          cs.cltvLimit,
 				Metadata:           metadata,
+
+				BlindedPaymentPathSet: blSet,
 			}
-			res.rt, res.prob, ferr = rtr.FindRoute(&RouteRequest{
+			req := &RouteRequest{
 				Source:       keys[cs.src],
 				Target:       keys[cs.tgt],
 				Amount:       lnwire.MilliSatoshi(cs.amt),
 				Restrictions: r,
 				RouteHints:   addEdges,
 				FinalExpiry:  cs.finalDelta,
-			})
+			}
+			if blSet != nil {
+				// the entry the router offers for blinded payments.
+				req, ferr = NewRouteRequest(keys[cs.src], nil,
+					lnwire.MilliSatoshi(cs.amt), 0, r, nil, nil,
+					blSet, 0)
+				if ferr != nil {
+					return
+				}
+			}
+			res.rt, res.prob, ferr = rtr.FindRoute(req)
 			if ferr != nil {
 				return
 			}
@@ -1114,8 +1322,9 @@ func (c *c19) run(cs *c19Case, g Graph, sess GraphSessionFactory,
 			)
 			logOn = true
 			relaxLog, storedLog = relax1, stored1
-			same := err2 == nil && len(p2) == len(res.rt.Hops)
-			for i := 0; same && i < len(p2); i++ {
+			same := err2 == nil && (len(p2) == len(res.rt.Hops) ||
+				(blSet != nil && len(p2) == len(res.rt.Hops)+1))
+			for i := 0; same && i < len(res.rt.Hops); i++ {
 				same = p2[i].policy.ChannelID ==
 					res.rt.Hops[i].ChannelID
 			}
@@ -1184,7 +1393,8 @@ func (c *c19) run(cs *c19Case, g Graph, sess GraphSessionFactory,
 				lnwire.MilliSatoshi(cfg.AttemptCostPPM)/1000000) *
 			(1/(0.5-0.0/2) - 1)
 		lastPay, lerr := lastHopPayloadSize(
-			&RestrictParams{Metadata: metadata},
+			&RestrictParams{Metadata: metadata,
+				BlindedPaymentPathSet: blSet},
 			int32(cs.height)+int32(cs.finalDelta),
 			lnwire.MilliSatoshi(cs.amt),
 		)
@@ -1211,7 +1421,9 @@ func (c *c19) run(cs *c19Case, g Graph, sess GraphSessionFactory,
 		var chainChan []uint64
 		{
 			cur := keys[cs.src]
-			if res.rt != nil {
+			// (blinded: the search's chain has one more edge, the dummy
+			// hop to the NUMS key, which newRoute removes.)
+			if res.rt != nil && !(cs.bl != nil && res.path != nil) {
 				for _, h := range res.rt.Hops {
 					chainFrom = append(chainFrom, cur)
 					cur = route.Vertex(h.PubKeyBytes)
@@ -1260,6 +1472,9 @@ func (c *c19) run(cs *c19Case, g Graph, sess GraphSessionFactory,
 		// edges) and, where every outgoing edge of the tail node is a route
 		// hint, the (amount, incoming CLTV) of the last entry stored for it.
 		for i := range chainFrom {
+			if res.rt != nil && i >= len(res.rt.Hops) {
+				break
+			}
 			f, t := vi(chainFrom[i]), vi(chainTo[i])
 			cnt, amt := 0, uint64(0)
 			for _, e := range relaxLog {
@@ -1285,9 +1500,13 @@ func (c *c19) run(cs *c19Case, g Graph, sess GraphSessionFactory,
 		from := cs.src
 		for i, e := range res.path {
 			to := vi(e.policy.ToNodePubKey())
+			chanID := e.policy.ChannelID
+			if cs.bl != nil && e.blindedPayment != nil && chanID == 0 {
+				chanID = cs.blChan(from)
+			}
 			c.pf("edge %d chan=%d from=%d to=%d base=%d rate=%d "+
 				"delta=%d ibase=%d irate=%d cap=%d", i,
-				e.policy.ChannelID, from, to,
+				chanID, from, to,
 				uint64(e.policy.FeeBaseMSat),
 				uint64(e.policy.FeeProportionalMillionths),
 				e.policy.TimeLockDelta, e.inboundFees.Base,
@@ -1315,9 +1534,17 @@ func (c *c19) run(cs *c19Case, g Graph, sess GraphSessionFactory,
 				rt.TotalTimeLock, vi(rt.SourcePubKey), len(rt.Hops),
 				uint64(rt.TotalFees()), uint64(rt.ReceiverAmt()),
 				payload, sphinx.MaxRoutingPayloadSize, sphinx.NumMaxHops)
+			hopFrom := cs.src
 			for i, h := range rt.Hops {
+				chanID := h.ChannelID
+				if cs.bl != nil && chanID == 0 && (hopFrom == cs.bl.intro ||
+					hopFrom >= cs.n) {
+
+					chanID = cs.blChan(hopFrom)
+				}
+				hopFrom = vi(h.PubKeyBytes)
 				c.pf("hop %d chan=%d to=%d amt=%d tl=%d fee=%d", i,
-					h.ChannelID, vi(h.PubKeyBytes),
+					chanID, vi(h.PubKeyBytes),
 					uint64(h.AmtToForward), h.OutgoingTimeLock,
 					uint64(rt.HopFee(i)))
 			}
@@ -1733,7 +1960,12 @@ func TestVerifC19(t *testing.T) {
 		if c.chance(0.08) {
 			cs = c.genTieCase()
 		}
-		if c.chance(0.3) && cs.self == cs.src {
+		if c.chance(0.08) {
+			cs = c.genBlindedCase()
+		}
+		if cs.bl != nil {
+			// via is fixed by genBlindedCase.
+		} else if c.chance(0.3) && cs.self == cs.src {
 			cs.via = "sess"
 			if cs.finalDelta < BlockPadding {
 				cs.finalDelta += BlockPadding
@@ -1762,9 +1994,22 @@ func TestVerifC19(t *testing.T) {
 					}
 				}
 			}
-			res := c.run(cs, g, g, memKeys[:cs.n+1])
+			keys := memKeys[:cs.n+1]
+			if cs.bl != nil {
+				// graph nodes, the blinded hops, the NUMS target.
+				keys = append([]route.Vertex(nil), memKeys[:cs.n]...)
+				for i := 0; i < cs.bl.k; i++ {
+					keys = append(keys, createPubkey(byte(60+i)))
+				}
+				keys = append(keys, route.NewVertex(&BlindedPathNUMSKey))
+			}
+			res := c.run(cs, g, g, keys)
 			if res.rt == nil || !c.chance(0.85) {
 				break
+			}
+			if cs.bl != nil {
+				cs = c.deriveBlinded(cs, res.rt)
+				continue
 			}
 			cs = c.derive(cs, res.rt, true)
 		}
